@@ -131,17 +131,7 @@ def serial {M : Machine} (ents : Nat → M.S) (order : List (Acq M)) : SerialSt 
 def SerialSt.outsOf {M : Machine} (st : SerialSt M) (t : Nat) : List M.Out :=
   (st.outs.filter (·.1 == t)).map (·.2)
 
-/-! ### completion: the state with every call in flight run to its end -/
-
-def Thread.completeEnt {M : Machine} (th : Thread M) (e : Nat) (s : M.S) : M.S :=
-  match th.cur with
-  | some r => if r.ent = e then (M.runFrom r.op r.pc (s, r.loc)).1 else s
-  | none => s
-
-/-- State of entity `e` once every thread inside a call on `e` has finished that call.
-(With the lock at most one thread is.) -/
-def Sys.complete {M : Machine} (sys : Sys M) (e : Nat) : M.S :=
-  sys.threads.foldl (fun s th => th.completeEnt e s) (sys.ents e)
+/-! ### results including the call in flight -/
 
 /-- Results of thread `th` including the one of its call in flight. -/
 def Thread.completeOuts {M : Machine} (th : Thread M) (ents : Nat → M.S) : List M.Out :=
@@ -173,12 +163,24 @@ def wellBracketed (l : List (Nat × LockEv)) : Bool := wellBracketedFrom none l
 /-! ### the two store machines -/
 
 open KM.ES in
-/-- A call against the aggregate store: which instance, command (or none), snapshot flag. -/
-structure AggCall (A : Agg) where
-  inst : Nat
-  cmd : Option (Sent A)
-  snap : Bool := false
-  wfail : Bool := false
+/-- A public call against the aggregate store that runs `execute_opt_command`:
+`command`, `get_latest`, `save_snapshot` through store object `i`. -/
+inductive AggCall (A : Agg) where
+  | cmd (i : Nat) (c : Sent A) (wfail : Bool)
+  | get (i : Nat)
+  | snap (i : Nat) (wfail : Bool)
+
+open KM.ES in
+def AggCall.phases {A : Agg} : AggCall A → List (Ent A × Local A → Ent A × Local A)
+  | .cmd i c wf => execPhases i (some c) false wf
+  | .get i => execPhases i none false false
+  | .snap i wf => execPhases i none true wf
+
+open KM.ES in
+def AggCall.toOp {A : Agg} : AggCall A → Op A
+  | .cmd i c wf => .cmd i c wf
+  | .get i => .get i
+  | .snap i wf => .snap i wf
 
 open KM.ES in
 def aggMachine (A : Agg) : Machine where
@@ -187,7 +189,7 @@ def aggMachine (A : Agg) : Machine where
   Loc := Local A
   Out := Out A
   start := fun _ => Local.start
-  phases := fun c => execPhases c.inst c.cmd c.snap c.wfail
+  phases := AggCall.phases
   finish := fun _ l => l.out
 
 open KM.ES in
